@@ -26,7 +26,7 @@ def main():
                 if isinstance(x, dict):
                     for k in list(x):
                         x[k] = share(x[k])
-                    key = json.dumps(x, sort_keys=True)
+                    key = json.dumps(x)      # same keys in the same order: dictionaries are ordered
                     if x and key in seen:
                         return seen[key]
                     seen[key] = x
